@@ -51,11 +51,12 @@ func (its *Timestamp) ToString() string {
 	return b.String()
 }
 
-// Hash returns the string hash of timestamp.
-// DON'T change this because protocol can be broken : TODO: this can be improved.
+// Hash returns the string hash of timestamp. It is only used as a key of in-memory maps.
+// The fields are separated: without separators (lamport 1, delimiter 10) and
+// (lamport 11, delimiter 0) of the same client had the same hash.
 func (its *Timestamp) Hash() string {
 	var b strings.Builder
-	_, _ = fmt.Fprintf(&b, "%d%d%d%s", its.Era, its.Lamport, its.Delimiter, its.CUID)
+	_, _ = fmt.Fprintf(&b, "%d:%d:%d:%s", its.Era, its.Lamport, its.Delimiter, its.CUID)
 	return b.String()
 }
 
